@@ -171,7 +171,7 @@ def _catf(ts):
 # productions of the first grammar version: the committed replay files of C29/C34 were recorded with exactly these
 # optional productions drawing from the tape; later productions are enabled by `grammar=2` (separate enumerated cases)
 V1_FEATURES = frozenset(["output_merge", "subworkflow", "scatter_any_method", "when", "multi_source", "default_for_null", "valueFrom"])
-V2_FEATURES = V1_FEATURES | frozenset(["tool_default", "valueFrom_other_input", "optional_array_input"])
+V2_FEATURES = V1_FEATURES | frozenset(["tool_default", "valueFrom_other_input", "optional_array_input", "loop"])
 
 
 class Gen:
@@ -228,7 +228,7 @@ class Gen:
                                                        "SubworkflowFeatureRequirement": {}, **JSREQ},
                "inputs": {}, "outputs": {}, "steps": {}}
         if depth == 0:
-            doc = {"cwlVersion": "v1.2", **doc}
+            doc = {"cwlVersion": "v1.2", "$namespaces": {"cwltool": "http://commonwl.org/cwltool#"}, **doc}
         avail = []
         job = {}
         if given is None:
@@ -248,12 +248,15 @@ class Gen:
             st, out_t, used_refs = self.step(avail, depth, k)
             doc["steps"][f"s{k}"] = st
             ref = f"s{k}/o"
-            avail.append((ref, out_t))
+            # the reference runner's static checker wraps the type of a loop output once more at every reference to it
+            # (cwltool quirk): a loop output is referenced exactly once, by a workflow output
+            if "cwltool:Loop" not in st.get("requirements", {}):
+                avail.append((ref, out_t))
             produced.append((ref, out_t))
             consumed |= used_refs
         outs = {}
         for ref, ty in produced:
-            if ref not in consumed or t.draw(3, "out.also") == 0:
+            if ref not in consumed or t.draw(3, "out.also") == 0 or "cwltool:Loop" in doc["steps"][ref.split("/")[0]].get("requirements", {}):
                 name = "o_" + ref.split("/")[0]
                 doc["outputs"][name] = {"type": cwl_type(ty), "outputSource": ref}
                 outs[name] = ty
@@ -292,8 +295,34 @@ class Gen:
         outs["o_merge"] = None
 
     # -- one step -----------------------------------------------------------------------------------------
+    def loop_step(self, avail):
+        """A step iterated with the cwltool:Loop extension: a := a + inc while a < lim (0, 1, 10, 11, ... iterations)."""
+        t = self.t
+        ints = [(r, ty) for r, ty in avail if ty == INT]
+        ins = {}
+        refs = set()
+        if ints and t.draw(3, "loop.src") != 0:
+            r, _ = ints[t.draw(len(ints), "loop.ref")]
+            ins["a"] = {"source": r}
+            refs.add(r)
+        else:
+            ins["a"] = {"default": (0, 1, 3, 10)[t.draw(4, "loop.start")]}
+        ins["lim"] = {"default": (11, 0, 1, 2, 12, 21)[t.draw(6, "loop.lim")]}
+        inc = (1, 2)[t.draw(2, "loop.inc")]
+        method = ("last", "all")[t.draw(2, "loop.method")]
+        tool = expr_tool({"a": INT, "lim": INT}, INT, 'return {"o": inputs.a + %d};' % inc)
+        loop = {"a": "o"} if t.draw(3, "loop.valueFrom") else {"a": {"loopSource": "o", "valueFrom": "$(self + 1)"}}
+        step = {"in": ins, "out": ["o"], "run": tool,
+                "requirements": {"cwltool:Loop": {"loopWhen": "$(inputs.a < inputs.lim)", "loop": loop, "outputMethod": method}}}
+        self.used.add("loop." + method)
+        if isinstance(loop["a"], dict):
+            self.used.add("loop.valueFrom")
+        return step, (opt(INT) if method == "last" else arr(INT)), refs
+
     def step(self, avail, depth, k):
         t = self.t
+        if depth == 0 and self.on("loop", 7):
+            return self.loop_step(avail)
         fams = sorted(FAMILIES)
         for _attempt in range(6):
             fam = fams[t.draw(len(fams), "family")]
